@@ -96,7 +96,9 @@ def chk_bayer(case, acc, seed):
         return
     osk = f'oversample={os_ if os_ < 3 else ">=3"}'
     if flatten:
-        if rm.maxerr(np.asarray(got), exp) > 1e-12:
+        if np.asarray(got).shape != exp.shape:
+            acc.violation(f'bayer:shape:{osk}', case, f'result shape {np.asarray(got).shape} != image shape {exp.shape}')
+        elif rm.maxerr(np.asarray(got), exp) > 1e-12:
             bad = np.argwhere(np.abs(np.asarray(got) - exp) > 1e-12)[0]
             acc.violation(f'bayer:wrong-colour:{osk}', case,
                           f'sub-pixel {tuple(bad)} does not use the efficiency of colour {P[(bad[0] // os_) % k][(bad[1] // os_) % k]} '
